@@ -219,7 +219,9 @@ def gen(rng: random.Random, tier: str) -> dict:
         for _ in range(rng.choice([1, 1, 2])):
             op = gen_delay(rng, burst_p=0.4, grid=0.25, max_steps=2)
             rmode = rng.choice(["all", "touch", "ctx"])
-            target = rng.choice([f for f in files if f in MOD_ORDER] if rmode == "touch" else files)
+            # global_ctx=<a module> is not generated: the importers it re-loads are never started again (their
+            # services and triggers stay away) - a reload defect outside C11 that would only blind the final probe
+            target = rng.choice([f for f in files if f in MOD_ORDER] if rmode == "touch" else entries)
             op.update({"kind": "reload", "mode": rmode, "target": target})
             ops.insert(rng.randint(1, len(ops)), op)
     if rng.random() < 0.12:
@@ -291,7 +293,8 @@ def normalize(scn: dict) -> dict | None:
                 continue
             started.add(op["run"])
         elif op["kind"] == "reload":
-            if op["target"] not in files or (op["mode"] == "touch" and op["target"] not in MOD_ORDER):
+            if op["target"] not in files or (op["mode"] == "touch" and op["target"] not in MOD_ORDER) or \
+                    (op["mode"] == "ctx" and op["target"] not in ENTRY_POOL):
                 continue
         ops.append(op)
     if not started:
@@ -481,8 +484,10 @@ def _render_file(fid: str, spec: dict) -> str:
         for form in edge["forms"]:
             stmt = _top_import(edge["dst"], form)
             if stmt:
-                tops.append((0 if form in STAR_FORMS else 1, stmt))
-    lines += [stmt for _, stmt in sorted(tops, key=lambda t: t[0])]
+                tops.append((0 if form in STAR_FORMS else 1, stmt, edge["dst"]))
+    for _, stmt, dst in sorted(tops, key=lambda t: t[0]):
+        lines.append(f"sim.mark('imp', {fid!r}, g={dst!r}, top=True)")
+        lines.append(stmt)
     slow = (spec.get("slow") or {}).get(fid)
     if slow:
         lines.append(f"task.sleep({slow})")
@@ -675,6 +680,12 @@ def run(scn: dict) -> dict:
                         w.probe("service_missing_during_reload")
                 st["starts"].append(rec)
             elif kind == "reload":
+                for prev in st["reloads"]:
+                    # overlapping pyscript.reload calls are another property's business (C10/C12): one at a time
+                    for _ in range(40):
+                        if prev["task"].done():
+                            break
+                        await w.sleep(0.05)
                 if op["mode"] == "touch":
                     w.touch_file(PATH[op["target"]])
                     arg = None
@@ -750,6 +761,9 @@ def judge(w: World, scn: dict, st: dict):
     loads: dict = {}           # fid -> [marks]
     tokens_seen: dict = {}     # fid -> {tok: first mark} before any reload was issued
     latest_tok: dict = {}      # fid -> token of the most recent load
+    load_done: dict = {}       # token -> index of the loaded_end mark
+    racing_load: dict = {}     # token -> its load began while the previous load of the file was in progress
+    imp_by_task: dict = {}     # task label -> {module: index of the task's latest 'imp' mark for it}
     sleeping: dict = {}        # (run, d) -> fid  (between enter and bumped)
     pending_imp: dict = {}     # (run, d) -> (g, first_import?)
     run_marks: dict = {}       # run id -> [marks]
@@ -802,18 +816,24 @@ def judge(w: World, scn: dict, st: dict):
             raise HarnessError(f"C11: unexpected mark {m['args']}")
         if kind == "loaded":
             lst = loads.setdefault(fid, [])
+            # did the import statement that caused this load begin before the previous load of the file was over?
+            begun_idx = imp_by_task.get(m["task"], {}).get(fid, idx)
+            racing = bool(lst) and load_done.get(lst[-1]["kw"].get("tok"), len(w.marks)) > begun_idx
+            racing_load[kw.get("tok")] = racing
             lst.append(m)
             latest_tok[fid] = kw.get("tok")
             n_rel = reloads_before(m["iter"])
             if tok_owner(kw.get("tok")) != fid:
                 raise HarnessError("C11: token registry out of step")
             if len(lst) > 1 + n_rel:
-                viol("C11.module_loaded_twice", {"kind": KIND[fid], "reload_issued": n_rel > 0},
+                viol("C11.module_loaded_twice", {"kind": KIND[fid], "reload_issued": n_rel > 0, "racing": racing},
                      f"top-level code of {PATH[fid]} ran {len(lst)} times (tokens "
-                     f"{[x['kw'].get('tok') for x in lst]}) although only {n_rel} reload(s) had been issued", m["t"],
-                     once=fid)
+                     f"{[x['kw'].get('tok') for x in lst]}) although only {n_rel} reload(s) had been issued; the "
+                     f"import that caused the last load began {'before' if racing else 'after'} the previous load "
+                     f"had finished", m["t"], once=fid)
             continue
         if kind == "loaded_end":
+            load_done[kw.get("tok")] = idx
             check_own(m, fid, kw, "C11.foreign_globals", "loaded_end")
             continue
         if kind == "peek":
@@ -823,6 +843,9 @@ def judge(w: World, scn: dict, st: dict):
             run_marks.setdefault(run_id, []).append(m)
         if kind == "imp":
             g = kw.get("g")
+            imp_by_task.setdefault(m["task"], {})[g] = idx
+            if kw.get("top"):
+                continue
             first = g not in loads
             pending_imp[(run_id, kw.get("d"), fid)] = (g, first)
             w.probe("function_body_import")
@@ -853,7 +876,8 @@ def judge(w: World, scn: dict, st: dict):
                 if tok not in known:
                     known[tok] = m
                     if len(known) > 1:
-                        viol("C11.module_instances_differ", {"when": "run"},
+                        viol("C11.module_instances_differ",
+                             {"when": "run", "racing": any(racing_load.get(k) for k in known), "reload_issued": False},
                              f"importers hold different instances of module {g}: tokens {sorted(known)} "
                              f"(latest: {fid} through {kw.get('via')} in run {run_id}); no reload had been issued",
                              m["t"], once=g)
@@ -876,7 +900,8 @@ def judge(w: World, scn: dict, st: dict):
                 if tok not in known:
                     known[tok] = m
                     if len(known) > 1:
-                        viol("C11.module_instances_differ", {"when": "run"},
+                        viol("C11.module_instances_differ",
+                             {"when": "run", "racing": any(racing_load.get(k) for k in known), "reload_issued": False},
                              f"functions of two different instances of module {fid} ran: tokens {sorted(known)}; "
                              f"no reload had been issued", m["t"], once=fid)
             for (orun, _od), ofid in sleeping.items():
@@ -975,7 +1000,8 @@ def judge(w: World, scn: dict, st: dict):
     t_end = w.marks[-1]["t"] if w.marks else 0.0
     for g, views in sorted(final_views.items()):
         if len(views) > 1:
-            viol("C11.module_instances_differ", {"when": "final"},
+            viol("C11.module_instances_differ",
+                 {"when": "final", "racing": any(racing_load.get(k) for k in views), "reload_issued": any_reload},
                  f"at the final quiescent point the live files hold {len(views)} instances of module {g}: "
                  + "; ".join(f"token {tk}: {sorted(set(who))}" for tk, who in sorted(views.items())), t_end,
                  once=("final", g))
